@@ -40,8 +40,9 @@ check('C19', 'cli',
       'TLC enumerates every declaration list with parents among earlier commands (all DAGs incl. diamonds and internal '
       'option sets) up to 4 (quick) / 5 (thorough) parsers, proves the I-spec registration loop equal to the '
       'ancestor-closure A-spec in every reachable state, and each emitted graph is replayed on the real ArgParser: '
-      'construction, one option per parser, all (command, option) pairs, common options, default-command argvs.',
-      'Trusted: TLC, argparse. One distinct option per parser; default command = first real command with a free '
+      'construction, three option strings per parser (two sharing a destination), all (command, option) pairs, common '
+      'options, default-command argvs incl. command / option-set names after options and as option values.',
+      'Trusted: TLC, argparse. Distinct option strings per parser; default command = first real command with a free '
       'positional.  Known finding F-C19b is reported as KNOWN-FINDING.',
       'DESIGN.md section 4, C19')
 
@@ -71,7 +72,8 @@ check('C03', 'llparser',
       'families; the real constructor must raise GrammarIsRecursive exactly then; every parse of an accepted grammar '
       'runs under a deterministic machine-step budget',
       'All grammars of the families over all name assignments (families are closed under renaming, start symbol varies) '
-      'and both dict orders: constructor outcome compared with the TLA+ left-recursion relation; all inputs up to the '
+      'and both dict orders, plus the left-recursion focused family R3 (3 symbols, base alternatives and one sequence of '
+      'non-terminals): constructor outcome compared with the TLA+ left-recursion relation; all inputs up to the '
       'bound parsed under a step budget counted through the parser debug hooks (no wall-clock verdicts).',
       _LLNOTE, 'DESIGN.md section 4, C03')
 
@@ -94,7 +96,7 @@ check('C09', 'color',
       'requested terminal state come from a TLC-enumerated builder',
       'All foreground and all background specifications (names, -1..256, the 8^3 tuples around the cube, g-1..g25), '
       'a representative cross product with all 32 effect combinations, no_color, text and bytes formatter, plus '
-      'multi-chunk texts: every str() is tokenised independently of the package and accepted or rejected by the TLC '
+      'multi-chunk texts (built at once, and grown step by step with str()/format() between the extensions): every str() is tokenised independently of the package and accepted or rejected by the TLC '
       'acceptor (each character in exactly the requested state, default state at the end, no stray escape, '
       'strip_colors == plain text, bytes == text); invalid values must raise ValueError.',
       'Trusted: TLC, the tokeniser in harness/sgr.py. Lists/floats as colour values are outside the documented domain.',
@@ -104,7 +106,7 @@ check('C14', 'color',
       'TLA+ spec with declarative Resolve (A-spec) and the incremental syntax map / resolution loop / palette cache '
       '(I-spec); TLC checks equality after every registration for all splits and orders; every emitted behaviour is '
       'replayed on a real ColorsConfig and palettes',
-      'TLC enumerates all description sets over 2 ids (6 colour parts x 3 modifier sets x 4 parents, built-in and '
+      'TLC enumerates all description sets over 2 ids nested 2 and 3 levels deep (7 colour parts incl. colour 0 x 3 modifier sets x 4 parents, built-in and '
       'unknown parents) with every split into initial configuration and ordered batches, direct or through palette '
       'classes, with conflicting re-declarations, and checks ImplMatchesSpec, OrderIndependent, CacheCoherent; '
       '3 ids exhaustively in the thorough tier and by simulation in quick.  Each behaviour is replayed (flat and '
@@ -121,10 +123,10 @@ check('C15', 'sql',
       'Every single condition of the family (comparisons x all pool values incl. NULL, quotes and wildcards; IN/NOT IN '
       'with empty, singleton and NULL-containing lists as list/tuple/set; NULL tests; LIKE/NOT LIKE; keyword filters; '
       'OR groups incl. empty; ignored None) is evaluated by the spec on a 49-row table of all value pairs and executed '
-      'in three API spellings; lists of up to 3 conditions by TLC simulation (quick) and all pairs exhaustively '
+      'in four API spellings x both placeholder styles (? and %s) x plain / underscore-prefixed column names; lists of up to 3 conditions by TLC simulation (quick) and all pairs exhaustively '
       '(thorough).  Checked: rows and order, list/all/one/one_or_none, no value in the SQL text, one placeholder per '
       'bound value in spec order, identical SQL for identical shapes.',
-      'Trusted: TLC, sqlite3 as the SQL engine (columns without affinity), value pool as in the evidence assumptions.',
+      'Trusted: TLC, sqlite3 as the SQL engine (columns without affinity; the %s style through a cursor that maps %s to ?), value pool as in the evidence assumptions.',
       'DESIGN.md section 4, C15')
 
 ENGINES['http'] = ('specs/http', ['C16', 'C17'],
@@ -136,11 +138,11 @@ check('C16', 'http',
       'code is run under a deterministic scheduler that enumerates all its schedules at shared-access granularity and '
       'every recorded execution is validated by TLC against the spec',
       'TLC explores every interleaving of 2 threads x 2 requests and 3 threads x 1 (x2 thorough) incl. caller supplied '
-      'ids: Unique, GapFree, MutualExclusion, termination.  harness/sched.py stops real threads before every load/store '
+      'ids and requests that fail after their number was handed out: Unique, GapFree (sent + lost numbers), MutualExclusion, termination.  harness/sched.py stops real threads before every load/store '
       'of a shared mutable attribute of the underlying connection (found in the bytecode of the working tree) and at lock '
       'acquisition and enumerates all schedules by stateless DFS (a removed or narrowed lock just yields more '
       'schedules); each execution trace (loads, stores, lock events, ids handed to the opener) is judged by TLC: ids '
-      'distinct, gap free, caller ids untouched (verdict) and the event sequence is a behaviour of ReqId (drift).',
+      'distinct, gap free up to the numbers lost to failed requests, caller ids untouched, also when all requests share one caller headers dict (verdict) and the event sequence is a behaviour of ReqId (drift).',
       'Trusted: TLC, CPython 3.12 sys.monitoring, the cooperative lock shim. Instructions other than shared accesses '
       'are thread local.  Quick tier caps the schedules per configuration (evidence says when the cap was hit).',
       'DESIGN.md section 4, C16')
@@ -152,7 +154,7 @@ check('C17', 'http',
       'CloneCaller none/single/list, GetConn per component, AddAdapter, Request with 5 methods x 11 body kinds) exhaustively and '
       'TLC simulations of 7 actions; after every action every live connection is probed and the captured urllib Request '
       'compared with the spec: address, path segments (inner prefixes outermost), url-encoded params, exactly one '
-      'decodable Authorization header, adapter and caller headers, response processors in reverse order, body '
+      'Authorization header that decodes (credentials chosen so that + and / occur in the base64 form) to the configured credentials, adapter and caller headers, response processors in reverse order, body '
       'encoding, caller objects unchanged.',
       'Trusted: TLC; opener replaced by a recorder. One auth layer per chain; paths start with "/"; tuples of '
       'adapters not exercised.',
@@ -165,7 +167,7 @@ check('C18', 'xls',
       'origins); TLC checks origin/value consistency and ladder equivalence on every sheet; every TLC-built sheet is '
       'read by the real iter_table/read_table and objects, values and origins compared',
       'TLC enumerates 8 column layouts x leading blank rows x both end rules x ladder/plain x all cell contents over '
-      '{blank,a,b} for 1 (quick) / 2 (thorough) data rows with and without trailing content, and simulates sheets of '
+      '{blank,a,b,0} for 1 (quick) / 2 (thorough) data rows, single and composite (2 attribute) keys, with and without trailing content, and simulates sheets of '
       'up to 4 rows; invariants OriginsHold and LadderEquivalence hold on the spec; the real reader must return the '
       'same objects (None for blank keys), attribute values, per-attribute / per-key / range origins, defaults for the '
       'missing optional and the external attribute, and the ladder reading must equal the plain reading of the '
@@ -193,7 +195,8 @@ check('C12', 'ppobj',
       'TLA+ layout acceptor (one action per printed line) judges real PPTable output for TLC-built abstract tables',
       'All one-column tables (7 width ranges incl. 0 and min=max, break-by, plain and enum columns in every modifier, '
       '0..1 (quick) / 0..2 (thorough) records over 7 cell-length classes, 7 limit settings, header/footer absent, short '
-      'and longer than the table) and TLC simulations of tables with up to 3 columns and 7 records are materialised '
+      'and longer than the table) and TLC simulations of tables with up to 3 columns and 7 records (an enum field may be shown '
+      'in several columns; a third of the tables is built from a format object) are materialised '
       'with values of mixed Python types (incl. border characters) and printed; TLC accepts the lines only if the '
       'border fixes widths within [min,max], every row has separators under the + marks, every cell is the desired '
       'text padded or a prefix plus dots, break lines sit exactly where the break-by key changes, limits show exactly '
@@ -206,8 +209,8 @@ check('C13', 'ppobj',
       'TLA+ spec of the format-object life cycle (what str(table.fmt) must describe after any sequence of Construct / '
       'Print / setter uses); TLC-generated life cycles replayed on real tables with the round-trip equalities '
       'evaluated on real renderings after every action',
-      'All life cycles of 2 actions over one-column tables (fixed and ranged widths, modifiers, break-by, 5 limit '
-      'settings) exhaustively and TLC simulations of 6 actions over 2 columns incl. repeated fields, on tables of 2, 4 '
+      'All life cycles of 2 actions over one-column tables (fixed and ranged widths, modifiers, break-by, 6 limit '
+      'settings and half-open limits given through the constructor argument) exhaustively and TLC simulations of 6 actions over 2 columns incl. repeated fields, on tables of 2, 4 '
       'and 6 records (so limits skip or do not skip).  After every action: PPTable(records, fmt=str(t.fmt)) and a '
       'copy with copy.fmt = str(t.fmt) must render exactly like t; "", ";" and ";;" must change nothing; the shape of '
       'str(t.fmt) is compared with the I-spec (drift only).',
@@ -222,7 +225,7 @@ check('C10', 'render',
       'weak-keyed cache pure); TLC-generated histories replayed in one interpreter on real objects; every render event '
       'judged by a TLC trace acceptor whose memo is seeded from fresh interpreters',
       'All histories of 4 actions (NewConf with 2 contents / no_color, DropConf + gc, SetGlobal, Render through a slot or '
-      'the global configuration, colour / no_color, whole / line by line) on the table kind and TLC simulations of 12 '
+      'the global configuration, colour / no_color, whole / line by line: each line at once, all lines collected first, interleaved with another rendering of the same object) on the table kind and TLC simulations of 12 '
       'actions over 7 object kinds (pretty-printed value, two tables sharing an enum field type, record formatter, '
       'h-doc help, an object starting with an empty line, the git history report).  Each event must equal the fresh-interpreter output for its '
       '(object, configuration content, no_color), line-by-line = whole, stripped colour output = no_color output, no '
@@ -236,8 +239,8 @@ check('C04', 'llparser',
       'the real parser; texts come from a TLC builder',
       'TLC builds all texts of 1 line x 4 chars and 2 lines x 2 chars (thorough: 1x5, 2x3) over an alphabet with '
       'every character class (space, form feed, word, digit, quoted string, multi-line span opener/closer, unmatched) and '
-      'simulates texts of 4 lines; each is parsed as str and as list of lines with two grammars (whitespace skipped / '
-      'kept as tokens; empty nodes first, in the middle and last).  TLC re-tokenizes the text with the reference '
+      'simulates texts of 4 lines; each is parsed as str and as list of lines with three grammars (whitespace skipped / '
+      'kept as tokens; empty nodes first, in the middle and last; backtracking into an empty production).  TLC re-tokenizes the text with the reference '
       'machine and accepts only if every leaf has exactly the reference span and get_orig_text returns exactly that '
       'slice, every inner node spans first..last token, every empty node sits at the following token, and an '
       'unmatched character raises LexicalError naming its line.',
@@ -251,11 +254,12 @@ check('C05', 'llparser',
       'parsers built from ListProds / MapProds / ProdSequence',
       'All data of depth 1 and width 2 (thorough: width 3, and depth 2) over atoms, empty items, lists and maps with '
       'repeated keys x 40 option sets (delimiter or none, allow_final_delimiter default/yes/no, nullable items, map '
-      'final delimiter) x 5 grammar shapes (value, optional containers after a word, bracket-less top list, optional '
+      'final delimiter) x 6 grammar shapes (value, optional containers after a word, bracket-less top list, bracket-less top map, optional '
       'list after every atom, declarations list) x with / without / forbidden final delimiter; each rendered 4 times '
       'with seeded whitespace, newlines and comments between tokens and with 4 orders of the productions dict.  The '
       'cleaned value must equal Denote (wrapper nodes the generic cleanup keeps are ignored), forbidden final '
-      'delimiters must raise ParsingError, sequences of terminals must come back in order.',
+      'delimiters must raise ParsingError, sequences of terminals must come back in order.  The same run model checks '
+      'TreeNav.tla (explicit-stack iterator = recursive orders) and replays its trees on real TElement objects (drift only).',
       'Trusted: TLC. Lists whose last item is empty are not generated (inherent ambiguity with the final delimiter). '
       'Known finding F-C05 (templates nested in a sequence) is reported as KNOWN-FINDING.',
       'DESIGN.md section 4, C05')
@@ -266,7 +270,7 @@ check('C06', 'ghist',
       'TLA+ relation between a git history and an acceptable report (per branch), checked satisfiable by TLC on every '
       'history; TLC-built histories materialised as mock repositories, the real report judged branch by branch by TLC',
       'TLC enumerates every history of up to 3 (quick) / 4 (thorough) commits with 0-2 parents (merges, several roots), '
-      'matching flags, up to 2 build tags and all placements of up to 3 branch heads (incl. heads coinciding with or '
+      'matching flags (the search text in the first line or only in a trailer of the message), up to 2 build tags and all placements of up to 3 branch heads (incl. heads coinciding with or '
       'inside another branch) and simulates histories of 8 commits / 4 tags / 4 branches; ReposCollection.'
       'make_reports_data runs on a mock repository and each branch report is accepted only if builds are the right '
       'commits, every reachable matching commit is listed once under an ancestry-minimal build of that branch, never '
@@ -281,7 +285,7 @@ check('C07', 'ghist',
       'TLA+ spec of a component history, a parent history with monotone component pins and the set of parent builds '
       'at which each report-related component build must be recorded (TLC: IncludedSomewhere, NeverTwiceOnAPath); '
       'TLC-built repository pairs replayed on mock repositories; all dependency graphs for the repository order',
-      'All pairs of a linear component (2 commits, 0-2 build tags per commit) and a parent history of 2 (quick) / 3 '
+      'All pairs of a component (2 commits, 0-2 build tags per commit; versions from the tag text or from a VERSION file that changes with every commit; DAG components with a diamond family) and a parent history of 2 (quick) / 3 '
       '(thorough) commits with merges, tags, 1-2 branches and every non-decreasing pin assignment, plus TLC '
       'simulations up to 4 component / 7 parent commits and 3 branches: RBuild.included_at of every report-related '
       'component build must be exactly the ancestry-minimal builds (or unbuilt head) of each parent branch whose pin '
